@@ -87,6 +87,8 @@ def cases(tier, seed):
         yield {"kind": "fnarg", "seed": seed, "idx": i}
     yield {"kind": "multi", "hashseeds": 6 if tier == "quick" else 16}
     yield {"kind": "proxy"}
+    for i in range(8):
+        yield {"kind": "namesake", "idx": i}
 
 
 def all_edges(n, form):
@@ -706,6 +708,90 @@ def run_proxy(case, out, fail):
                  "a function that mentions a global answering every attribute: reports %s" % got)
 
 
+# ---------------------------------------------------------------- (F) a hidden callee that has a namesake in the closure
+NAMESAKE = {
+    "store_a.py": "import twosigma.memento as m\n\n@m.memento_function\ndef load(x):\n    return x + 1\n\n"
+                  "@m.memento_function\ndef fetch(x):\n    return x + 2\n\nsettings = 5\n",
+    "store_b.py": "import twosigma.memento as m\n\n@m.memento_function\ndef load(x):\n    return x + 10\n\n"
+                  "@m.memento_function\ndef fetch(x):\n    return x + 20\n\n@m.memento_function\ndef settings(x):\n    return x + 30\n",
+    "__init__.py": "",
+}
+NAMESAKE_MAIN = """import sys
+import twosigma.memento as m
+%(imp)s
+
+@m.memento_function
+def report(which, x):
+    r = %(use)s
+    if which:
+        # (a dynamic call to a function of the other module: nothing in this text names it)
+        r += getattr(sys.modules[__name__.rsplit(".", 1)[0] + ".store_" + "b"], which)(x)
+    return r
+"""
+NAMESAKE_FORMS = [
+    # (import statements, expression that names functions of store_a, names it mentions)
+    ("from %(pkg)s import store_a", "store_a.load(x)", ["load"]),
+    ("from %(pkg)s.store_a import load", "load(x)", ["load"]),
+    ("import %(pkg)s.store_a as sa", "sa.load(x) + sa.settings", ["load", "settings"]),
+    ("from %(pkg)s.store_a import load as fetch", "fetch(x)", ["fetch"]),
+]
+
+
+def namesake_child(arg):
+    from twosigma.memento.exception import UndeclaredDependencyError
+
+    d = os.path.join(arg["root"], arg["pkg"])
+    os.makedirs(d)
+    for name, text in NAMESAKE.items():
+        with open(os.path.join(d, name), "w") as f:
+            f.write(text)
+    with open(os.path.join(d, "main.py"), "w") as f:
+        f.write(NAMESAKE_MAIN % {"imp": arg["imp"] % {"pkg": arg["pkg"]}, "use": arg["use"]})
+    sys.path.insert(0, arg["root"])
+    env.set_env(os.path.join(arg["root"], "env"), default_storage=env.mem_backend())
+    importlib.import_module(arg["pkg"] + ".store_b")  # (loaded by someone else: the main module does not name it)
+    main = importlib.import_module(arg["pkg"] + ".main")
+    res = {"closure": sorted(f.qualified_name_without_version.split(".")[-1]
+                             for f in main.report.dependencies().transitive_memento_fn_dependencies()), "calls": {}}
+    order = ["load", "fetch", "settings"] if arg["first_hidden"] else [None, "load", "fetch", "settings"]
+    for k, which in enumerate(order + [None]):
+        try:
+            res["calls"]["%d:%s" % (k, which)] = ["ret", main.report(which, k)]
+        except UndeclaredDependencyError:
+            res["calls"]["%d:%s" % (k, which)] = ["undeclared"]
+        except Exception as e:
+            res["calls"]["%d:%s" % (k, which)] = ["raise", type(e).__name__, str(e)[:200]]
+    return res
+
+
+def run_namesake(case, out, fail):
+    """The calling function names functions of one module; the hidden callee lives in another module and has the bare
+    name of something the caller mentions (or not): it is outside the closure either way."""
+    imp, use, mentioned = NAMESAKE_FORMS[case["idx"] % 4]
+    with env.Scratch() as sc:
+        res = procs.in_child(namesake_child, {"root": sc.path("n"), "pkg": "vns_%d" % case["idx"], "imp": imp, "use": use,
+                                             "first_hidden": case["idx"] >= 4})
+        out["obs"]["functions_compared"] += 1
+        out["obs"]["namesake_scenarios"] += 1
+        if res["closure"] != ["store_a:load"]:
+            fail("transitive memento dependencies differ from reachability in the reference graph",
+                 "namesake program (%s): closure reported %s" % (use, res["closure"]))
+        for k, got in sorted(res["calls"].items()):
+            which = k.split(":")[1]
+            if which == "None":
+                out["obs"]["calls_expected_ok"] += 1
+                if got[0] != "ret":
+                    fail("a call inside the static closure is refused", "namesake program (%s): report(None, ..) -> %s" % (use, got))
+                continue
+            out["obs"]["calls_expected_undeclared"] += 1
+            if which in mentioned:
+                out["obs"]["hidden_calls_to_a_namesake_of_a_mentioned_name"] += 1
+            if got[0] != "undeclared":
+                fail("a call outside the static closure is not refused",
+                     "namesake program (caller mentions %s through %r): hidden call to store_b.%s -> %s" % (mentioned, use, which, got))
+        out["nontrivial"].append("namesake:%d" % case["idx"])
+
+
 def run_case(case):
     out = {"viol": [], "nontrivial": [], "obs": collections.Counter()}
 
@@ -713,7 +799,7 @@ def run_case(case):
         if len(out["viol"]) < 6:
             out["viol"].append({"sig": sig, "msg": msg})
 
-    {"small": run_small, "random": run_random, "fnarg": run_fnarg, "multi": run_multi, "proxy": run_proxy}[case["kind"]](case, out, fail)
+    {"small": run_small, "random": run_random, "fnarg": run_fnarg, "multi": run_multi, "proxy": run_proxy, "namesake": run_namesake}[case["kind"]](case, out, fail)
     out["obs"] = dict(out["obs"])
     return out
 
